@@ -487,6 +487,23 @@ func neverReturnsNilIface(P *Program, nn *nonNil, fn *ssa.Function, seen map[*ss
 			if len(P.Callees(x)) == 0 {
 				return false
 			}
+		case *ssa.Extract:
+			// result #i of an (interface, error) producer, used where the error is nil
+			okEx := false
+			if call, isCall := x.Tuple.(*ssa.Call); isCall {
+				n := call.Call.Signature().Results().Len()
+				if e := resultValue(call, n-1); n >= 2 && e != nil && isErrorType(e.Type()) && knownNil(e, b) {
+					okEx = len(P.Callees(call)) > 0
+					for _, callee := range P.Callees(call) {
+						if !P.IsServitorFunc(callee) || !ifaceProducerSound(P, nn, callee, x.Index) {
+							okEx = false
+						}
+					}
+				}
+			}
+			if !okEx && !knownNonNil(v, b) {
+				return false
+			}
 		default:
 			if !knownNonNil(v, b) {
 				if os.Getenv("SERVCHECK_DEBUG") != "" {
@@ -494,6 +511,53 @@ func neverReturnsNilIface(P *Program, nn *nonNil, fn *ssa.Function, seen map[*ss
 				}
 				return false
 			}
+		}
+	}
+	return true
+}
+
+// ifaceProducerSound: every return of fn whose error may be nil returns, at
+// index idx, an interface that holds a non-nil value: a conversion of a
+// provably non-nil pointer, or of the pointer result of a sound (value, error)
+// producer whose error is returned alongside.
+func ifaceProducerSound(P *Program, nn *nonNil, fn *ssa.Function, idx int) bool {
+	if len(fn.Blocks) == 0 {
+		return false
+	}
+	for _, b := range fn.Blocks {
+		ret, ok := b.Instrs[len(b.Instrs)-1].(*ssa.Return)
+		if !ok {
+			continue
+		}
+		e := ret.Results[len(ret.Results)-1]
+		if provablyNonNilErr(e, b, 0) {
+			continue
+		}
+		mi, ok := ret.Results[idx].(*ssa.MakeInterface)
+		if !ok {
+			return false
+		}
+		if _, isPtr := mi.X.Type().Underlying().(*types.Pointer); !isPtr {
+			continue
+		}
+		if nn.Value(mi.X, b, 0) {
+			continue
+		}
+		paired := false
+		if ex, ok := mi.X.(*ssa.Extract); ok {
+			if call, ok := ex.Tuple.(*ssa.Call); ok {
+				if eex, ok := e.(*ssa.Extract); ok && eex.Tuple == ssa.Value(call) {
+					paired = len(P.Callees(call)) > 0
+					for _, callee := range P.Callees(call) {
+						if !P.IsServitorFunc(callee) || !nn.producerSound(callee, ex.Index) {
+							paired = false
+						}
+					}
+				}
+			}
+		}
+		if !paired {
+			return false
 		}
 	}
 	return true
